@@ -212,8 +212,13 @@ QUICK = [
     ("1K1I.pdb", ["--ff=AMBER"], False, "preflipped"),
     ("1BX8.pdb", ["--ff=PARSE"], False, "preflipped"),
     ("1A1P.pdb", ["--ff=AMBER", "--noopt"], False),
+    # a water oxygen 1.45-2.4 A beyond a flip atom of every ASN/GLN/HIS (both sides of the 1.5 / 2.0 A
+    # "nearby atom" cutoffs), for residues that end up unflipped and (preflipped) flipped
+    # (the variants are chosen in run(): clash_inputs)
 ]
 THOROUGH = QUICK + [
+    *[("1AFS.pdb", ["--ff=AMBER"], False, f"clash{k}") for k in range(0, 20, 3)],
+    *[("1AFS.pdb", ["--ff=AMBER"], False, f"preflipped+clash{k}") for k in range(1, 20, 3)],
     ("1AFS.pdb", ["--ff=AMBER"], False, "preflipped"),
     ("1A1P.pdb", ["--ff=AMBER"], False, "preflipped"),
     ("cterm_hid.pdb", ["--ff=AMBER"], False, "preflipped"),
@@ -255,11 +260,100 @@ def key_of_atom(a):
 INTERIOR = {"ARG": "CG", "LYS": "CG", "GLU": "CG", "GLN": "CG", "LEU": "CG", "MET": "CG", "ILE": "CG1", "PHE": "CG", "TYR": "CG", "HIS": "CG", "TRP": "CG", "ASP": "CG", "ASN": "CG"}
 
 
+# every atom a flip moves (heavy) with the atom it hangs on; Debump.find_nearby_atoms calls two atoms of
+# different residues "near" below BUMP_HEAVY_SIZE*2 = 2.0 A (heavy-heavy), 1.5 A (heavy-hydrogen), 1.0 A (H-H)
+FLIP_ATOMS = {
+    "ASN": [("OD1", "CG"), ("ND2", "CG")],
+    "GLN": [("OE1", "CD"), ("NE2", "CD")],
+    "HIS": [("ND1", "CG"), ("CD2", "CG"), ("CE1", "ND1"), ("NE2", "CD2")],
+}
+CLASH_DISTANCES = [1.45, 1.6, 1.9, 2.1, 2.4]
+
+
+def add_clash_waters(text, k):
+    """One water oxygen per ASN/GLN/HIS, d A beyond one of its flip atoms on the line parent -> atom:
+    a steric neighbour (and hydrogen-bond partner) of another residue AT a flip atom.  Variant k picks, for
+    the j-th such residue, flip atom (j + k) mod n and distance CLASH_DISTANCES[(j + k // n) mod 5], so a
+    handful of variants put every flip atom of ASN, GLN and HIS on both sides of every threshold."""
+    lines = text.splitlines()
+    res = {}
+    order = []
+    for ln in lines:
+        if ln.startswith(("ATOM  ", "HETATM")) and ln[17:20] in FLIP_ATOMS:
+            key = ln[17:27]
+            if key not in res:
+                res[key] = {}
+                order.append(key)
+            res[key].setdefault(ln[12:16].strip(), (float(ln[30:38]), float(ln[38:46]), float(ln[46:54])))
+    waters = []
+    for j, key in enumerate(order):
+        opts = FLIP_ATOMS[key[:3]]
+        a, par = opts[(j + k) % len(opts)]
+        d = CLASH_DISTANCES[(j + k // len(opts)) % len(CLASH_DISTANCES)]
+        if a not in res[key] or par not in res[key]:
+            continue
+        pa, pp = res[key][a], res[key][par]
+        n = math.dist(pa, pp)
+        if n < 1e-6:
+            continue
+        w = [pa[i] + d * (pa[i] - pp[i]) / n for i in range(3)]
+        waters.append(f"HETATM{9000 + len(waters):5d}  O   HOH W{900 + len(waters):4d}    {w[0]:8.3f}{w[1]:8.3f}{w[2]:8.3f}  1.00  0.00           O")
+    body = [ln for ln in lines if not ln.startswith(("END", "CONECT", "MASTER"))]
+    return "\n".join(body + waters + ["END"]) + "\n"
+
+
+def clash_plan(text, k):
+    """What add_clash_waters(text, k) places: [(residue name, flip atom, distance)] (coverage accounting)."""
+    seen = []
+    for ln in text.splitlines():
+        if ln.startswith(("ATOM  ", "HETATM")) and ln[17:20] in FLIP_ATOMS and ln[17:27] not in seen:
+            seen.append(ln[17:27])
+    out = []
+    for j, key in enumerate(seen):
+        opts = FLIP_ATOMS[key[:3]]
+        out.append((key[:3], opts[(j + k) % len(opts)][0], CLASH_DISTANCES[(j + k // len(opts)) % len(CLASH_DISTANCES)]))
+    return out
+
+
+def clash_inputs(thorough):
+    """Greedy, deterministic choice of clash variants: 1K1I (29 flip residues, 1.2 s a run) and 1AJJ/1A1P (HIS),
+    plain and preflipped, until every (residue type, flip atom, distance) combination has a water in the plain
+    AND in the preflipped series."""
+    out = []
+    want = {(r, a, d) for r, l in FLIP_ATOMS.items() for a, _ in l for d in CLASH_DISTANCES}
+    for pre in (False, True):
+        have = set()
+        budget = {"1K1I.pdb": 12 if thorough else 5, "1AJJ.pdb": 10 if thorough else 4, "1A1P.pdb": 10 if thorough else 3}
+        texts = {p: (core.REPO / "tests" / "data" / p).read_text() for p in budget}
+        while have != want and any(budget.values()):
+            best = None
+            for pdb in sorted(budget):
+                if not budget[pdb]:
+                    continue
+                for k in range(40):
+                    gain = len(set(clash_plan(texts[pdb], k)) - have)
+                    if best is None or gain > best[0]:
+                        best = (gain, pdb, k)
+            if best is None or best[0] == 0:
+                break
+            _, pdb, k = best
+            budget[pdb] -= 1
+            have |= set(clash_plan(texts[pdb], k))
+            out.append((pdb, ["--ff=AMBER" if not pre else "--ff=PARSE"], False, ("preflipped+" if pre else "") + f"clash{k}"))
+    return out
+
+
 def transform_pdb(text, transform):
     """The same structure written differently: 'alphabetical' = the ATOM records of every residue sorted
     by atom name (CD before CG, CE1 before ND1, ring atoms before CG); 'del-interior' = an interior
     side-chain heavy atom (CG / CG1) removed from every second residue that has one, so that repair_heavy
     rebuilds it and appends it AFTER its children in residue.atoms."""
+    if "+" in transform:
+        for t in transform.split("+"):
+            text = transform_pdb(text, t)
+        return text
+    if transform.startswith("clash"):
+        return add_clash_waters(text, int(transform[5:] or 0))
     lines = text.splitlines()
     out = []
     i = 0
@@ -1194,8 +1288,24 @@ def flip_oracle(ctx, rec, label):
     rotated set has exactly its input coordinates, and the heavy atoms of the rotated set are EITHER all at their
     input coordinates OR all where the rotation of __init__ put them; bond lengths / 1-3 distances among the
     residue's heavy atoms are those of the input."""
+    if rec.get("err"):
+        return
+    # right after Flip.__init__: exactly one *FLIP atom for every moveable name (Model.Flip.copy_names), at the
+    # input coordinates of that atom, and nothing else new
+    want = [n for n in rec["M"] if not (rec["is_c_term"] and n == "HO")]
+    got = [n[:-4] for n, _ in rec["atoms1"] if n.endswith("FLIP")]
+    inp0 = dict(rec["atoms0"])
+    a1 = dict(rec["atoms1"])
+    ctx.cov["correspondence_cases"] += 1
+    if sorted(got) != sorted(want) or any(a1[n + "FLIP"] != inp0.get(n) for n in want if n + "FLIP" in a1):
+        ctx.cov["correspondence_disagreements"] += 1
+        missing = sorted(set(want) - set(got))
+        extra = sorted(n for n in got if n not in want or got.count(n) > 1)
+        moved = [n for n in want if n + "FLIP" in a1 and a1[n + "FLIP"] != inp0.get(n)]
+        if sum(b["what"].startswith("Flip.__init__ copies") for b in ctx.broken) < 3:
+            ctx.broke("correspondence-broken", "Flip.__init__ copies vs Model.Flip.copy_names: one *FLIP atom per moveable name at the cached input coordinates", f"{label}: {rec['residue']} {rec['optangle']}: missing copies {missing}, unexpected copies {extra}, copies not at the input position {moved}", {"pdb": label.split()[0], "args": label.split()[1:], "flip": {"residue": rec["residue"]}})
     final = rec["final"]
-    if final is None or rec.get("err"):
+    if final is None:
         return
     inp = dict(rec["atoms0"])
     rot = {n: p for n, p in rec["atoms1"] if not n.endswith("FLIP")}
@@ -1301,7 +1411,8 @@ def run(ctx):
         "Definition.map) vs the Coq model, in template order, reversed and alphabetical order (model evaluated on rev_graph/sort_graph, exact list) and "
         "3 (thorough 12) random permutations of residue.atoms and of every atom.bonds (same set as the model, listed in the permuted order); real runs also on "
         "inputs rewritten with alphabetical atom order within residues and with interior side-chain atoms (CG/CG1) deleted so that repair_heavy rebuilds and "
-        "appends them, and with ASN/GLN/HIS written the other way round ('preflipped': O/N resp. ring atoms exchanged, so that the optimiser flips them back); every Flip "
+        "appends them, and with ASN/GLN/HIS written the other way round ('preflipped': O/N resp. ring atoms exchanged, so that the optimiser flips them back); inputs with a water oxygen 1.45-2.4 A beyond each flip atom "
+        "of ASN/GLN/HIS (all 40 residue x atom x distance combinations, plain and preflipped); every Flip "
         "object of every real run is followed from __init__ to complete() (flip_oracle: all-or-nothing + rigid; tie with Model.Flip); ~30% of the debump walks on a residue whose atoms/bonds lists are shuffled, ~25% on a residue with an interior atom rebuilt by the real repair_heavy; every Debump.set_dihedral_angle call of real runs replayed in the model; every input heavy atom of real runs "
         "checked (exact for backbone/caps/no-op modes, rigid geometry otherwise). Debump walks: debump_residue on a random real residue of 1AJJ "
         "(80% with >= 2 side-chain dihedrals) with a random script of 1-10 attempts (modes none/improve/improve2/tie/zero-conflict/zero-clear at steps "
@@ -1351,13 +1462,17 @@ def run(ctx):
             if True:
                 corr_broken = storage_order_correspondence(ctx, definition, mlabels, res[1:5]) or corr_broken
     # --- (B)+(C)
-    inputs = THOROUGH if (ctx.thorough or not ok or corr_broken) else QUICK
+    inputs = list(THOROUGH if (ctx.thorough or not ok or corr_broken) else QUICK) + clash_inputs(ctx.thorough)
     seen_calls = {}
     real_ties = []
     flip_recs = []
     for pdb, extra, noop, *tr in inputs:
         transform = tr[0] if tr else None
         run_ = real_run(ctx, pdb, extra, transform)
+        if transform and "clash" in transform:
+            base = (core.REPO / "tests" / "data" / pdb).read_text()
+            for rn, an, d in clash_plan(base, int(transform.split("clash")[1])):
+                ctx.count(f"clash-water:{rn}:{an}:{d}{':preflipped' if 'preflipped' in transform else ''}")
         if transform:
             pdb = f"{pdb}[{transform}]"
         if run_["err"]:
